@@ -38,7 +38,7 @@ ASSUMPTIONS = ["one OS schedule per scenario", "an execute call that has not ret
 OUTSIDE = ["interleavings and timing", "keyword names 'payload' / 'flavour' / 'self'"]
 
 FLAV = ("asyncio", "trio", "threading")
-FAMILIES = ("none", "int", "float", "bool", "str", "list", "tuple")
+FAMILIES = ("none", "int", "float", "bool", "str", "list", "tuple", "exception_instance")
 
 
 class UserError(Exception):
@@ -64,6 +64,8 @@ def _outcome(ctx, sfx):
             v = ctx.num("value" + sfx, fam)
         elif fam == "bool":
             v = ctx.boolvalue("value" + sfx)
+        elif fam == "exception_instance":
+            v = KeyError(ctx.num("value" + sfx, "int"))  # e.g. a 'last error seen' getter: returned, not raised
         else:
             v = ctx.seq("length" + sfx, fam)
         return "return", fam, v
@@ -333,8 +335,52 @@ def _nested(outer, inner):
     return problems
 
 
+def _equal_arguments(flavour):
+    """enumerated, concrete: the same payload executed again with arguments that are equal but not the same
+    objects (1, 1.0, True; equal tuples) receives exactly the objects of THAT call"""
+    w = rt.World(accept_delay=0.02)
+    runner = w.runner
+    problems = []
+    seen = []
+    if flavour == "threading":
+        def payload(*a, **k):
+            seen.append((a, k))
+            return a
+    else:
+        async def payload(*a, **k):
+            seen.append((a, k))
+            return a
+    calls = [((1,), {}), ((1.0,), {}), ((True,), {}), (((1, 2),), {"scale": 2}), (((1, 2),), {"scale": 2.0}), ((0,), {}), ((False,), {}), ((0.0,), {})]
+    calls = [(tuple(x if not isinstance(x, tuple) else tuple(list(x)) for x in a), k) for a, k in calls]
+    try:
+        w.start()
+        if not w.wait_running():
+            return ["runner never reported running"]
+        for a, k in calls:
+            o, t = rt.blocking(lambda: runner.execute(payload, *a, flavour=rt.FLAVOURS[flavour], **k), bound=rt.BOUND)
+            if o.kind != "return":
+                problems.append("execute%r did not return (%s %r)" % (a, o.kind, o.exc))
+                break
+            got_a, got_k = seen[-1]
+            if not (len(got_a) == len(a) and all(x is y for x, y in zip(got_a, a)) and all(got_k[n] is k[n] for n in k)):
+                problems.append("execute(payload, %r, %r): the payload received %r %r (equal, but not the objects supplied)" % (a, k, got_a, got_k))
+                break
+    finally:
+        try:
+            w.cleanup()
+        except Exception as e:
+            problems.append("cleanup failed: %s" % e)
+    return problems
+
+
 def extra(tier, seed):
     violations = []
+    for f in FLAV:
+        problems = _equal_arguments(f)
+        for msg in problems[:1]:
+            violations.append({"harness": "equal_arguments", "label": "a repeated execute receives exactly the arguments of that call (enumerated scenario)",
+                               "inputs": {"flavour": f, "problem": msg}, "params": {}, "status": "confirmed", "kind": "custom",
+                               "module": MOD, "property": PROPERTY})
     for outer in FLAV:
         for inner in FLAV:
             if outer == inner and outer != "threading":
@@ -361,6 +407,10 @@ def extra(tier, seed):
 
 
 def replay(v):
+    if v.get("harness") == "equal_arguments":
+        problems = _equal_arguments(v["inputs"]["flavour"])
+        print(problems)
+        return 1 if problems else 0
     problems = _nested(v["inputs"]["outer"], v["inputs"]["inner"]) if v.get("harness") == "nested_execute" else _overlapping(v["inputs"]["flavour"])
     print(problems)
     print("REPRODUCED" if problems else "not reproduced on this tree")
